@@ -130,7 +130,9 @@ class _Generator(Generator):
         suffix = type_name[:-2]
         location = self.location_inner()
 
-        if type_.number_of_bits in [8, 16, 32, 64] and \
+        type_length = self.type_length(checker.minimum, checker.maximum)
+
+        if type_.number_of_bits == type_length and \
                 checker.minimum in [0, -128, -32768, -2147483648, -9223372036854775808]:
             return (
                 [
